@@ -124,6 +124,21 @@ func (cr *cursor) updateWordRIOdd() (trigger bool) {
 	return trigger
 }
 
+// closesMidSequence returns true if the three given classes match the
+// patterns of rules WB6/WB7, WB7b/WB7c or WB11/WB12
+func closesMidSequence(prevPrev, prev, current wordBreakClass) bool {
+	isAHLetter := func(c wordBreakClass) bool { return c == ucd.WordBreakALetter || c == ucd.WordBreakHebrew_Letter }
+	switch {
+	case isAHLetter(prevPrev) && isAHLetter(current):
+		return prev == ucd.WordBreakMidLetter || prev == ucd.WordBreakMidNumLet || prev == ucd.WordBreakSingle_Quote ||
+			(prev == ucd.WordBreakDouble_Quote && prevPrev == ucd.WordBreakHebrew_Letter && current == ucd.WordBreakHebrew_Letter)
+	case prevPrev == ucd.WordBreakNumeric && current == ucd.WordBreakNumeric:
+		return prev == ucd.WordBreakMidNum || prev == ucd.WordBreakMidNumLet || prev == ucd.WordBreakSingle_Quote
+	default:
+		return false
+	}
+}
+
 // Apply the Word_Boundary_Rules and returns true if we are at a
 // word boundary.
 // removePrevNoExtend is true if the index [prevWordNoExtend]
@@ -149,6 +164,9 @@ func (cr *cursor) applyWordBoundaryRules(i int) (isWordBoundary, removePrevNoExt
 		isWordBoundary = true // Rule WB3b
 	} else if cr.prev == 0x200D && cr.isExtentedPic {
 		isWordBoundary = false // Rule WB3c
+		// the ZWJ is ignored by the following rules (WB4) : the current rune may still end
+		// a sequence forbidding the boundary before [prev]
+		removePrevNoExtend = closesMidSequence(prevPrev, prev, current)
 	} else if prev == ucd.WordBreakWSegSpace &&
 		current == ucd.WordBreakWSegSpace && isAfterNoExtend {
 		isWordBoundary = false // Rule WB3d
